@@ -18,7 +18,7 @@ import (
 // c09Profile: names and types chosen to stress string concatenation in the templates.
 var c09Profile = synth.Profile{Name: "c09", MaxControllers: 3, MaxMethods: 5, MultiPkg: true, MultiFile: true, Hidden: true, ParamIn: allInC09, ParamTypeLevel: 2,
 	Validators: true, RuntimeValidators: true, Models: 2, CustomErrors: true, Responses: true, RouteStyle: "clean", CtlRouteParams: true, WireNames: true, CtxParams: true,
-	AnyBytesTime: true, NestedSlices: true, Maps: true, Security: true, DefaultSecP: 0.3, HostileNames: true, CompileHostile: true, SameNameTypes: true, LookalikeTypes: true, DashedWireNames: true}
+	AnyBytesTime: true, NestedSlices: true, Maps: true, Security: true, DefaultSecP: 0.3, HostileNames: true, CompileHostile: true, SameNameTypes: true, LookalikeTypes: true, DashedWireNames: true, LowerVerbs: true, GroupedParams: true, GroupedControllers: true, ControllerFields: true}
 
 var allInC09 = []string{"path", "query", "header", "form", "body"}
 
